@@ -62,7 +62,7 @@ class Cfg:
     boost_p: float = 0.4
     pred: object = None  # family predicate (default: unitary qubit gates)
     conf: bool = True  # confusion maps allowed
-    sub_tags: tuple = (0, 0, 0, 1, 1, 2, 3, 4)
+    sub_tags: tuple = (0, 0, 1, 1, 1, 2, 3, 4)
     sub_reps2: bool = True
     sub_kmap: bool = True
     sub_qperm: bool = True
